@@ -9,9 +9,10 @@ import subprocess
 import sys
 import time
 
-pid = sys.argv[1]
-name = sys.argv[2] if len(sys.argv) > 2 else pid + "-1"
-src = "/tmp/seed/%s-out" % pid
+tag = sys.argv[1]                 # "C05" (first wave) or "C05b" (second wave: /tmp/seed/C05b-out)
+pid = tag[:3]
+name = sys.argv[2] if len(sys.argv) > 2 else pid + ("-1" if tag == pid else "-%d" % (ord(tag[3]) - ord("a") + 1))
+src = "/tmp/seed/%s-out" % tag
 wt = "/tmp/evalwt"
 V = "/verif"
 
@@ -43,7 +44,8 @@ caught = chk.returncode == 1 and any(l.startswith("VIOLATION") for l in lines)
 dst = os.path.join(V, "seeded", name)
 if os.path.isdir(dst):
     shutil.rmtree(dst)
-shutil.copytree(src, dst)
+shutil.copytree(src, dst, ignore=lambda d, fs: [f for f in fs if os.path.isfile(os.path.join(d, f))
+                                                  and os.path.getsize(os.path.join(d, f)) > 2_000_000])
 viol = [l for l in lines if l.startswith("VIOLATION")]
 replays = []
 for l in viol[:3]:
